@@ -126,6 +126,8 @@ type interpreter struct {
 	handles      map[*value]iface
 	faultFn      value
 	concurrent   bool
+	symSizes     int
+	ropeMode     bool
 	preempts     int
 	idleWait     []*thread
 	stalled      []*thread
@@ -390,8 +392,19 @@ func visitInstr(fr *frame, instr ssa.Instruction) continuation {
 		*addr = zero(mustDeref(instr.Type()))
 
 	case *ssa.MakeSlice:
-		n := fr.concLen(fr.get(instr.Len), "makeslice: len out of range")
-		c := fr.concLen(fr.get(instr.Cap), "makeslice: cap out of range")
+		if ls, isS := fr.get(instr.Len).(sym); isS && i.ropeMode {
+			if eb, ok := instr.Type().Underlying().(*types.Slice).Elem().Underlying().(*types.Basic); ok && eb.Kind() == types.Uint8 {
+				// a byte buffer of symbolic length: kept symbolic (see rope.go)
+				_, lsigned, _ := intInfo(instr.Len.Type())
+				if lsigned && i.decideBool(i.tt.App("bvslt", 0, ls.t, i.tt.Const(ls.t.width, 0)), "makeslice<0") {
+					fr.tpanic("makeslice: len out of range")
+				}
+				fr.env[instr] = &rope{segs: []ropeSeg{{kind: segHole, length: i.tt.ZeroExt(ls.t, 64)}}}
+				break
+			}
+		}
+		n := fr.concLen(fr.get(instr.Len), instr.Len.Type(), "makeslice: len out of range")
+		c := fr.concLen(fr.get(instr.Cap), instr.Cap.Type(), "makeslice: cap out of range")
 		if n > c {
 			fr.tpanic("makeslice: cap out of range")
 		}
